@@ -86,6 +86,7 @@ type Exec struct {
 	raceLog   []string
 	entVC     map[*MapEnt]vclock
 	permCache [][]*MapEnt
+	decided   map[string]bool
 	hostDone  chan struct{}
 }
 
@@ -178,7 +179,17 @@ func (x *Exec) branch(b BoolV) bool {
 	if b.Con {
 		return b.C
 	}
-	return x.choose([]string{b.T, "(not " + b.T + ")"}, "branch") == 0
+	// a condition already decided on this path stays decided (the path condition only grows)
+	if v, ok := x.decided[b.T]; ok {
+		return v
+	}
+	r := x.choose([]string{b.T, "(not " + b.T + ")"}, "branch") == 0
+	if x.decided == nil {
+		x.decided = map[string]bool{}
+	}
+	x.decided[b.T] = r
+	x.decided["(not "+b.T+")"] = !r
+	return r
 }
 
 // concInt concretises a symbolic integer used as index/length by forking over
@@ -419,7 +430,7 @@ func (x *Exec) binop(op token.Token, a, b Val, t types.Type, pos func() string) 
 			}
 			return BV{W: w, T: fmt.Sprintf("(%s %s (_ bv%d %d))", n, u.term(), amt, w)}
 		}
-	case PtrV, IfaceV, SliceV, *MapV, FuncV, *StructV, *ArrV, RTypeV, OpaqueV, nil:
+	case PtrV, IfaceV, SliceV, *MapV, FuncV, *StructV, *ArrV, RTypeV, OpaqueV, *ChanV, nil:
 		switch op {
 		case token.EQL:
 			return x.valEq(a, b)
@@ -764,6 +775,8 @@ func (x *Exec) run(f *frame) Val {
 				case token.SUB:
 					b := v.(BV)
 					f.regs[in] = x.binop(token.SUB, cbv(b.W, 0), b, in.Type(), nil)
+				case token.ARROW:
+					f.regs[in] = x.chanRecv(v.(*ChanV), in.CommaOk, in.Type(), x.pos(in))
 				case token.XOR:
 					b := v.(BV)
 					if b.Con {
@@ -870,6 +883,10 @@ func (x *Exec) run(f *frame) Val {
 				}
 			case *ssa.MakeMap:
 				f.regs[in] = &MapV{}
+			case *ssa.MakeChan:
+				f.regs[in] = &ChanV{cap: x.concInt(x.get(f, in.Size), "chan size"), cvc: vclock{}}
+			case *ssa.Send:
+				x.chanSend(x.get(f, in.Chan).(*ChanV), x.get(f, in.X), x.pos(in))
 			case *ssa.MakeSlice:
 				n := x.concInt(x.get(f, in.Len), "make len")
 				c := x.concInt(x.get(f, in.Cap), "make cap")
@@ -1130,9 +1147,23 @@ func (x *Exec) builtin(name string, args []Val, c *ssa.CallCommon, site string) 
 			return cbv(64, uint64(len(u.Ent)))
 		case *ArrV:
 			return cbv(64, uint64(len(u.E)))
+		case *ChanV:
+			if u == nil {
+				return cbv(64, 0)
+			}
+			return cbv(64, uint64(len(u.buf)))
 		}
 	case "cap":
+		if c, ok := args[0].(*ChanV); ok {
+			if c == nil {
+				return cbv(64, 0)
+			}
+			return cbv(64, uint64(c.cap))
+		}
 		return cbv(64, uint64(args[0].(SliceV).Cap))
+	case "close":
+		x.chanClose(args[0].(*ChanV), site)
+		return nil
 	case "append":
 		s := args[0].(SliceV)
 		var add []Val
